@@ -399,6 +399,14 @@ theorem resolve_answers_satisfy_filters (s : Store) (id : String) (r : ResolveMe
   obtain ⟨newer, older, hc, hm, hall⟩ := resolveChain_sound (some r) _ (d, m) h
   exact ⟨⟨newer, older, hc, hall⟩, matchesMeta_some m r hm⟩
 
+/-- … and `Resolve` is complete: it answers not-found only when NO stored version passes the filters, and its only
+    other error on stored data is `deactivated` -/
+theorem resolve_not_found_means_no_version_matches (s : Store) (id : String) (rm : Option ResolveMeta) :
+    (resolve s id rm = .err "not-found" → ∀ q ∈ (s.get id).chain, matchesMeta q.2 rm = false) ∧
+    (∀ x, resolve s id rm = .err x → x = "not-found" ∨ x = "deactivated") := by
+  unfold resolve
+  exact ⟨fun h q hq => resolveChain_not_found rm _ h q (List.mem_reverse.mpr hq), resolveChain_errors rm _⟩
+
 /-- **Deactivation is permanent, end to end.** If the arrived set holds a deactivation of a DID then — for every
     arrival order — `Resolve(id, nil)` and `Resolve(id, {})` answer `deactivated`, and no query without
     `AllowDeactivated` is ever answered with a deactivated version. -/
